@@ -233,6 +233,14 @@ fn gen_line(rng: &mut Rng, c: &Case, dir: &[u8], odd: bool) -> String {
         8 => format!("*/{}", wild_name(rng, name, odd)),
         9 if comps.len() >= 2 => format!("{}/*", comps[..comps.len() - 1].iter().map(|c| esc_name(rng, c)).collect::<Vec<_>>().join("/")),
         10 => format!("/{}", comps.iter().map(|c| esc_name(rng, c)).collect::<Vec<_>>().join("/")),
+        // a slash-free pattern that BEGINS with `**` and goes on (`**che`, `**.bak`, `**name`): for git an ordinary
+        // basename pattern that applies at every depth (`**` = `*` there); add_line must still give it the implicit
+        // `**/` prefix -- only the bare `**` and `**/x` are exempt (has_doublestar_prefix; seeded change C04-1-1)
+        11 if rng.chance(1, 2) => {
+            let cs: Vec<char> = name.chars().collect();
+            let k = if cs.is_empty() { 0 } else { rng.below(cs.len()) };
+            format!("**{}", esc_name(rng, &cs[k..].iter().collect::<String>()))
+        }
         _ => esc_name(rng, name),
     };
     if (is_dir && rng.chance(1, 2)) || rng.chance(1, 10) {
